@@ -71,6 +71,7 @@ func (w *Worker) start(done doneFunc, ctx context.Context) {
 			if !ok {
 				return
 			}
+			model.VerifYield("worker.work")
 			w.output <- w.doWork(w.workerID, task.arg, task.in)
 		}
 	}
